@@ -82,6 +82,45 @@ fn check(ctx: &Ctx, c: &Case, label: &str, counting: bool) -> Result<(), Fail> {
 			return Err(fail("hash_fragmented", format!("hash {:?} vs {:?} ({})", frag.hash, full.hash, sched.describe())));
 		}
 	}
+	// the replay embedded in a longer stream, the reader handed over positioned at its first byte
+	// (second replay of a concatenated dump, member of an uncompressed archive, ...): wherever the
+	// full read works on such a reader, the skip-frames read must give the same start/end/metadata
+	{
+		let mut stream = match (&m.end, bytes.len() % 2) {
+			(crate::model::EndSpec::None, _) | (_, 0) => {
+				let mut junk = vec![0u8; 1 + bytes.len() * 7 % 611];
+				crate::gen::SplitMix(bytes.len() as u64).fill(&mut junk);
+				junk
+			}
+			_ => {
+				// a sibling replay of the same length whose Game End and metadata differ
+				let mut sib = m.clone();
+				sib.end = match &m.end {
+					crate::model::EndSpec::One(b) => crate::model::EndSpec::One(b.iter().map(|x| x ^ 0x55).collect()),
+					crate::model::EndSpec::Two(b) => crate::model::EndSpec::Two(b.iter().map(|x| x ^ 0x55).collect()),
+					crate::model::EndSpec::None => crate::model::EndSpec::None,
+				};
+				sib.encode()
+			}
+		};
+		let at = stream.len();
+		stream.extend_from_slice(&bytes);
+		stream.extend_from_slice(&[0x7d, 0x55, 0, 0x36, 0x39]);
+		let of = rt::slp_opts(false, c.hash);
+		let os = rt::slp_opts(true, c.hash);
+		if let (rt::Out::Ok(efull), _) = rt::slp_read_embedded(&stream, at, Some(&of)) {
+			if counting {
+				ctx.class("embedded_stream");
+			}
+			let eskip = rt::slp_read_embedded(&stream, at, Some(&os)).0.expect_ok("slippi::read(skip_frames, reader positioned at an embedded replay)").map_err(|f| f.with_file("slp", &bytes).with_file("stream.bin", &stream).with_detail(json!({"model": m.summary(), "hash": c.hash, "replay_starts_at": at})))?;
+			same_sem(&eskip, &efull).map_err(|e| fail("sem_embedded", format!("replay at offset {} of a longer stream, skip-frames vs full on the same reader: {}", at, e)).with_file("stream.bin", &stream))?;
+			if c.hash && eskip.hash != efull.hash {
+				return Err(fail("hash_embedded", format!("replay at offset {} of a longer stream: hash {:?} vs {:?}", at, eskip.hash, efull.hash)).with_file("stream.bin", &stream));
+			}
+		} else if counting {
+			ctx.class("embedded_stream_full_read_unsupported");
+		}
+	}
 	same_sem(&skip, &full).map_err(|e| fail("sem", format!("skip-frames vs full: {}", e)))?;
 	if c.hash && skip.hash != full.hash {
 		return Err(fail("hash", format!("hash {:?} vs {:?}", skip.hash, full.hash)));
@@ -121,6 +160,19 @@ fn check(ctx: &Ctx, c: &Case, label: &str, counting: bool) -> Result<(), Fail> {
 	let pskip = rt::slpp_read(&pf, true).expect_ok("peppi::read(skip_frames)").map_err(|f| f.with_file("slpp", &pf).with_detail(detail.clone()))?;
 	diff_games(&pskip, &full2, &CmpOpts { frames: false, hash: true, quirks: true }).map_err(|e| fail("slpp_skip", format!(".slpp skip-frames vs full: {}", e)))?;
 	diff_views(&view_immutable(&pskip.frames), &view_model(&empty)).map_err(|e| fail("slpp_empty_frames", format!(".slpp skip-frames frame columns: {}", e)))?;
+	// "the result can itself be written out and re-read" for the .slpp reader's skip-frames game too:
+	// as .slp (this game keeps its Gecko codes) and as .slpp
+	let w3 = rt::slp_write(&pskip).expect_ok("slippi::write(.slpp skip game)").map_err(|f| f.with_file("slp", &bytes).with_detail(detail.clone()))?;
+	for sk in [false, true] {
+		let re3 = rt::slp_read(&w3, sk, false).expect_ok("slippi::read(written .slpp skip game)").map_err(|f| f.with_file("slp", &bytes).with_file("written.slp", &w3).with_detail(detail.clone()))?;
+		same_sem(&re3, &full2).map_err(|e| fail("slpp_skip_written", format!(".slp written from the .slpp skip-frames game, re-read (skip_frames={}): {}", sk, e)))?;
+		if re3.frames.len() != 0 {
+			return Err(fail("slpp_skip_written_rows", format!("re-read has {} rows", re3.frames.len())));
+		}
+	}
+	let p3 = rt::slpp_write(pskip, c.comp).expect_ok("peppi::write(.slpp skip game)").map_err(|f| f.with_file("slp", &bytes).with_detail(detail.clone()))?;
+	let re4 = rt::slpp_read(&p3, false).expect_ok("peppi::read(written .slpp skip game)").map_err(|f| f.with_file("slp", &bytes).with_file("slpp", &p3).with_detail(detail.clone()))?;
+	diff_games(&re4, &full2, &CmpOpts { frames: false, hash: true, quirks: true }).map_err(|e| fail("slpp_skip_rewritten", format!(".slpp written from the .slpp skip-frames game: {}", e)))?;
 	Ok(())
 }
 
@@ -138,8 +190,36 @@ fn forced(i: usize) -> Case {
 pub fn case(ctx: &Ctx, kind: &str, params: &Value, counting: bool) -> Result<(), Fail> {
 	match kind {
 		"forced" => check(ctx, &forced(params["i"].as_u64().unwrap_or(0) as usize), "forced", counting),
+		"chain" => chain_case(ctx, &dna_param(params), counting),
 		_ => check(ctx, &gen_case(&dna_param(params), &cfg(ctx)), "dna", counting),
 	}
+}
+
+/// A generated sequence of format hops that includes skip-frames reads of both formats: start, end and
+/// metadata equal the original after every hop and every intermediate game can be written (chain.rs).
+fn chain_case(ctx: &Ctx, dna: &[u8], counting: bool) -> Result<(), Fail> {
+	let mut d = Dna::new(dna);
+	let ops = super::chain::gen_ops(&mut d, true, 6);
+	let mut c = cfg(ctx);
+	c.finished = true;
+	c.max_frames = c.max_frames.min(30);
+	let m = super::gen_model_mixed(&mut d, &c, true);
+	let bytes = m.encode();
+	if counting {
+		ctx.eval();
+		ctx.class("chain");
+		for o in &ops {
+			ctx.class(&format!("hop:{}", o.name().split('(').next().unwrap_or("")));
+		}
+		if ops.iter().any(|o| o.lossy()) {
+			ctx.class("chain_with_skip_hop");
+			let mut h = bytes.clone();
+			h.extend(ops.iter().flat_map(|o| o.name().into_bytes()));
+			ctx.nontrivial(rt::hash_bytes(&h));
+		}
+		ctx.sample_k("chain", 4, || json!({"ops": ops.iter().map(|o| o.name()).collect::<Vec<_>>(), "model": m.summary()}));
+	}
+	super::chain::run_chain(&bytes, &ops, &m.summary())
 }
 
 fn cfg(ctx: &Ctx) -> crate::gen::GenCfg {
@@ -157,6 +237,9 @@ pub fn run(ctx: &Ctx) -> usize {
 	}
 	let cfg = cfg(ctx);
 	if run_dna(ctx, "dna", ctx.n(8_000, 400_000), dna_max(ctx), |dna, counting| check(ctx, &gen_case(dna, &cfg), "dna", counting)).is_some() {
+		violations += 1;
+	}
+	if violations == 0 && run_dna(ctx, "chain", ctx.n(4_000, 150_000), dna_max(ctx), |dna, counting| chain_case(ctx, dna, counting)).is_some() {
 		violations += 1;
 	}
 	violations
